@@ -103,7 +103,13 @@ def evaluate(mod, cases, scratch, out, findings, asan=False):
             fid = None
             for f in findings:
                 clf = getattr(mod, "CLASSIFIERS", {}).get(f["classifier"])
-                if clf and clf(c, f.get("params", {})) and corr_ok and has_model[i]:
+                if not (clf and corr_ok and has_model[i]):
+                    continue
+                try:
+                    hit = clf(c, f.get("params", {}), ir, model[i], spec[i])      # result-aware classifiers
+                except TypeError:
+                    hit = clf(c, f.get("params", {}))
+                if hit:
                     fid = f["id"]
                     break
             if fid:
